@@ -644,7 +644,7 @@ func main() {
 	out.Imports = "From Verif Require Import Base.Lin Model.LoginInbound.\n"
 	out.Rule = "four streams over a real loginInboundConn (and modernForgeLoginRelay) on recording client/backend connections: (seq) 0..4 sends before the event (some answered before they were sent), the event (sometimes never, sometimes late), then up to 14 sends / relays of backend messages / client responses (right ids, ids not sent yet, extreme ids; success or failure; nil, empty or 1..3 byte bodies; through handleLoginPluginResponse or the initial-login / auth handlers), consumers that send more messages from inside, clearOnAllMessagesHandled before relays, sends without contents, and a closing sweep answering everything (some twice); (orderly) sends, the event, each message answered once, nothing sent afterwards; (old) the same on a 1.12.2 client where every send must fail; (conc) one sending, one answering and one firing goroutine, 1..3 calls each, logical clock. Non-trivial: seq/orderly/old = a consumer or the relay ran and some response was ignored; conc = two calls of different goroutines overlapped. Distinct = distinct Coq case terms."
 
-	nSeq, nOrd, nOld, nConc := f.Count(220), f.Count(60), f.Count(10), f.Count(110)
+	nSeq, nOrd, nOld, nConc := f.Count(180), f.Count(50), f.Count(10), f.Count(90)
 	emitSeq := func(kind string, pok bool, ops []op) {
 		if !out.Wanted() {
 			out.Add("", nil, false)
